@@ -23,17 +23,37 @@ func fetcherBody(c *mc.Ctx) {
 	size := 1 + c.Choose(2)
 	delay := []time.Duration{10 * time.Millisecond, 0}[c.Choose(2)]
 	buf := 1 + c.Choose(2)
-	c.Op("[items=%d MaxSize=%d MaxDelay=%v BufferSize=%d]", p.items, size, delay, buf)
+	// one fetch may fail (error, no results) or come back empty: the fetch whose batch contains
+	// the chosen item; the results of every other batch must still come out, in order
+	failItem, failMode := -1, 0
+	if f := c.Choose(1 + 2*p.items); f > 0 {
+		failItem, failMode = (f-1)/2, (f-1)%2
+	}
+	c.Op("[items=%d MaxSize=%d MaxDelay=%v BufferSize=%d; fetch of the batch with item %d %s]", p.items, size, delay, buf, failItem, []string{"fails", "returns nothing"}[failMode])
 	var got, pauses []int
 	var fetchErrs int
-	schedh.Run(c, schedh.Opts{MaxSteps: 4000, MaxAdvances: 8}, func() {
+	lost := map[int]bool{}
+	wantErrs, started, calls := 0, 0, 0
+	schedh.Run(c, schedh.Opts{MaxSteps: 6000, MaxAdvances: 40}, func() {
 		ctx, cancel := context.WithCancel(context.Background())
 		errCh := make(chan error, 8)
 		batcher := batching.NewEventBatcher[int](ctx, batching.EventBatcherParams{MaxSize: size, MaxDelay: delay})
 		rf := batching.NewReorderFetcher(ctx, batching.NewReorderFetcherParams[int, int]{
 			Batcher: batcher, ErrChan: errCh, BufferSize: buf,
 			FetchBatch: func(ctx context.Context, events []int) ([]int, error) {
+				started++
 				shim.Point("fetch-latency")
+				defer func() { calls++ }()
+				if slices.Contains(events, failItem) {
+					for _, e := range events {
+						lost[e] = true
+					}
+					if failMode == 0 {
+						wantErrs++
+						return nil, fmt.Errorf("fetch failed")
+					}
+					return []int{}, nil
+				}
 				out := make([]int, len(events))
 				for i, e := range events {
 					out[i] = e * 10
@@ -43,8 +63,12 @@ func fetcherBody(c *mc.Ctx) {
 		})
 		done := make(chan struct{})
 		shim.Go(func() {
-			for len(got) < p.items {
-				got = append(got, shim.Recv(rf.Output))
+			for {
+				out := shim.RecvCase(rf.Output)
+				if shim.Select(false, out, shim.RecvCase(ctx.Done())) != 0 {
+					break
+				}
+				got = append(got, out.Val())
 			}
 			shim.Close(done)
 		})
@@ -57,17 +81,24 @@ func fetcherBody(c *mc.Ctx) {
 			rf.Add(ctx, i)
 		}
 		rf.Flush(ctx)
-		shim.Recv(done)
+		// wait until every result that can come has been handed out: an early timer expiry is one of
+		// the explored deviations, so a single sleep proves nothing; the deviation budget is small
+		for try := 0; try < 12 && (calls < started || len(got) < p.items-len(lost) || len(errCh) < wantErrs); try++ {
+			shim.Sleep(20 * time.Millisecond)
+		}
 		fetchErrs = len(errCh)
 		cancel()
+		shim.Recv(done)
 	})
-	want := make([]int, p.items)
-	for i := range want {
-		want[i] = i * 10
+	var want []int
+	for i := 0; i < p.items; i++ {
+		if !lost[i] {
+			want = append(want, i*10)
+		}
 	}
 	c.Op("producer paused before items %v; output=%v", pauses, got)
-	if fetchErrs > 0 {
-		c.Failf("fetch errors reported")
+	if fetchErrs != wantErrs {
+		c.Failf("%d fetch errors reported, %d fetches failed", fetchErrs, wantErrs)
 	}
 	if !slices.Equal(got, want) {
 		sig := "fetcher-reordered"
@@ -78,6 +109,6 @@ func fetcherBody(c *mc.Ctx) {
 		}
 		c.FailSig(sig, "ReorderFetcher output %v, inputs map to %v", got, want)
 	}
-	c.Outcome(fmt.Sprint(size, delay, buf, pauses, got))
-	c.Nontrivial(fmt.Sprint(size, delay, buf, pauses, c.Used()))
+	c.Outcome(fmt.Sprint(size, delay, buf, failItem, failMode, pauses, got))
+	c.Nontrivial(fmt.Sprint(size, delay, buf, failItem, failMode, pauses, c.Used()))
 }
